@@ -42,6 +42,15 @@ def gen_cases(run):
     # negative n: the loop never runs
     for n in (-1, -5):
         cases.append((n, ["200"]))
+    # fixed block (appended after every random draw, so that it shifts nothing): runs of transport errors that all
+    # have the SAME text and type ("es": only their identity differs), as a refused connection produces them, and
+    # runs of identical context errors: the property knows no "give up after k identical errors"
+    for n in (1, 2, 3, 4, 5, 6, 8):
+        for tok in ("es", "ec", "et"):
+            for j in range(1, n + 1):
+                cases.append((n, pad([tok] * j + ["200"], n)))
+                cases.append((n, pad([tok] * j + ["503"] + [tok] * (n - j), n)))
+            cases.append((n, [tok] * (n + 1)))
     return cases, exhaustive_part
 
 
@@ -100,7 +109,7 @@ def gen_profiles(run):
 def coq_outcome(i, tok):
     if "r" in tok:              # a Retry-After header is not part of the model's response
         tok = tok[:tok.index("r")]
-    if tok in ("e", "ec", "ed", "et"):
+    if tok in ("e", "ec", "ed", "et", "es"):
         return "RErr %d None" % i
     if tok.startswith("E"):
         return "RErr %d (Some {| r_id := %d; r_status := (%s)%%Z |})" % (i, i, tok[1:])
@@ -259,6 +268,49 @@ def check_stacks(run, probe):
     return jobs, obs, mism, [(jobs[i], last[i]) for i in pending]
 
 
+def gen_overlaps(run):
+    """two requests through ONE middleware instance AT THE SAME TIME: the first attempt of request A is held inside the
+    wire while request B runs to completion, then A carries on.  The property holds of each request on its own: state
+    shared between the requests of one instance (an attempt counter, a budget, a last response) shows here and nowhere
+    in the sequential groups"""
+    jobs = []
+    okk = ["200", "404", "302"]
+    for n in (0, 1, 2, 3):
+        fa = lambda k: [run.rng.choice(FAILING) for _ in range(k)]
+        shapes = [(fa(n + 1), fa(n + 1)),                       # both exhaust
+                  (fa(n) + [run.rng.choice(okk)], fa(n + 1)),   # A succeeds on its last attempt, B exhausts
+                  (fa(n + 1), [run.rng.choice(okk)]),           # A exhausts, B succeeds at once
+                  ([run.rng.choice(okk)], fa(n + 1))]           # A succeeds at once, B exhausts
+        for _ in range(6 if run.thorough() else 2):
+            shapes.append((fa(run.rng.randint(0, n + 1)) + [run.rng.choice(okk + FAILING)],
+                           fa(run.rng.randint(0, n + 1)) + [run.rng.choice(okk + FAILING)]))
+        for a, b in shapes:
+            jobs.append((n, [pad(a, n), pad(b, n)], "overlap"))
+    return jobs
+
+
+def check_overlaps(run, probe):
+    """returns (jobs, first-pass mismatches, confirmed [(job, which, verdict, obs)])"""
+    jobs = gen_overlaps(run)
+
+    def measure(js, delay, par):
+        obs = run_jobs(probe, js, delay, par)
+        cases = [(n, sc) for n, scs, _ in js for sc in scs]
+        flat = [o for os_ in obs for o in os_]
+        return cases, flat
+    cases, flat = measure(jobs, 2000, 16)
+    mism = coq_mismatches(run, cases, flat, "c20ovl")
+    confirmed = []
+    for idx, _v in mism[:40]:
+        job = jobs[idx // 2]
+        c2, f2 = measure([job], 20000, 1)
+        m2 = coq_mismatches(run, c2, f2, "c20ovlre_%d" % idx)
+        for k, v in m2:
+            if k == idx % 2:
+                confirmed.append((job, k, v, f2[k]))
+    return jobs, mism, confirmed
+
+
 def coq_mismatches(run, cases, obs, tag):
     """evaluate the comparison inside Coq, in shards; returns list of (index, verdict)"""
     shard = 400
@@ -351,6 +403,18 @@ def main(run):
                        "how": "go run harness/go/cmd/rtprobe <<< '0 %d 20000 %s %s'" % (n, ",".join(sc), stack_profile(outer, inner, login))},
                       no_input=(o["calls"] <= budget))
     confirmed = confirmed + sconfirmed
+    # overlapping requests through one instance
+    ojobs, omism, oconfirmed = check_overlaps(run, probe)
+    for (n, scs, _p), which, v, o in oconfirmed[:5]:
+        run.violation({"kind": "property-fails-on-implementation" if v == 2 else "correspondence-broken",
+                       "theorem": "C20_stops_at_first_acceptable / C20_exhausted_returns_last",
+                       "correspondence": "L1:C20:rtprobe overlap vs Model/Retry.v",
+                       "overlap": {"n": n, "scripts": scs, "failing_request": "AB"[which]},
+                       "n": n, "script": scs[which], "observed": o,
+                       "how": "go run harness/go/cmd/rtprobe <<< '0 %d 20000 %s overlap'   (request A's first attempt is held in the "
+                              "transport while request B completes)" % (n, "|".join(",".join(sc) for sc in scs))},
+                      no_input=(v != 2))
+    confirmed = confirmed + oconfirmed
     if not proof_ok and not confirmed:
         run.proof_failure_violation()
     # second tie: the model regenerated from retry.go by the translator, bridged to Model/Retry.v inside Coq
@@ -386,6 +450,12 @@ def main(run):
         "mismatches_first_pass": len(mism),
         "mismatches_confirmed_on_slow_rerun": len(confirmed),
         "timing_mismatches_not_reproduced": len(mism) - (len(confirmed) - len(sconfirmed)),
+        "overlap_jobs": len(ojobs),
+        "overlap_rule": "two overlapping requests through one RetryMiddleware instance (A's first attempt held in the transport while B "
+                        "completes), n in 0..3: both exhaust / A late success / B immediate success / A immediate success + random; each "
+                        "request's observation compared with the single-instance model",
+        "overlap_mismatches_first_pass": len(omism),
+        "overlap_mismatches_confirmed_on_slow_rerun": len(oconfirmed),
         "stack_cases": len(sjobs),
         "stack_rule": ("RetryMiddleware(outer) . RetryMiddleware(n) . [LoggingMiddleware] . RetryMiddleware(inner) over the scripted wire, "
                        "by hand and (without inner logging, with EnableLogging off/on) assembled by shoot.Use options + RestConf.BuildMiddleware over a replaced http.DefaultTransport, "
@@ -413,6 +483,15 @@ def replay(run, path):
     r = json.load(open(path))
     run.prove("Properties/C20.v", ["Corr/RetryCorr.v", "Corr/RetryStackCorr.v"])
     probe = run.build_helper("rtprobe")
+    if r.get("overlap"):
+        ov = r["overlap"]
+        os_ = run_jobs(probe, [(ov["n"], ov["scripts"], "overlap")], 20000, 1)[0]
+        m = coq_mismatches(run, [(ov["n"], sc) for sc in ov["scripts"]], os_, "c20ovlreplay")
+        print("observed:", os_, "verdict:", m)
+        if m:
+            print("VIOLATION property=C20 replay=%s" % path)
+            return 1
+        return 0
     if r.get("stack"):
         st = r["stack"]
         job = (st["outer"], st["n"], st["logging_inside"], st["inner"], r["script"])
